@@ -269,3 +269,6 @@ pub mod outstation_probe;
 // C10: database -> handler conversion probe
 #[path = "convert_probe.rs"]
 pub mod convert_probe;
+
+#[path = "ffidb_probe.rs"]
+pub mod ffidb_probe;
